@@ -2,7 +2,9 @@
 (* C11 — model of what runpp_3ph is GIVEN and what C11 therefore REQUIRES, per abstract configuration.               *)
 (* TLC enumerates every configuration of the template (Phase3Def.tla): transformer vector group x topology x the    *)
 (* placement of up to NSlots elements of kind load / sgen / asymmetric_load / asymmetric_sgen with connection type,  *)
-(* per-phase level pattern and modifier (out of service / scaling 0.5).  For each configuration the stages of        *)
+(* per-phase level pattern and modifier (out of service / scaling 0.5), x a busbar section joined to a host bus by a  *)
+(* closed / open bus-bus switch (fused buses carrying elements), x the rows of the ext_grid table (several slack      *)
+(* buses, any table order, out-of-service rows).  For each configuration the stages of                               *)
 (* runpp_3ph up to the solver are stepped as actions:                                                                *)
 (*   Convert   runpp_3ph.py:422-427  three pd2ppc conversions: in-service selection, connectivity, vector group      *)
 (*   MapLoads  runpp_3ph.py:441      _load_mapping: per bus / phase / connection sums of the specified powers        *)
@@ -17,18 +19,30 @@ CONSTANTS NSlots,        \* number of element slots
           ElemBuses,     \* buses that may carry elements
           Pats,          \* level patterns of asymmetric elements: "bal" a=b=c, "unb" distinct levels, "zero" one phase 0
           Mods,          \* modifiers: "none", "oos", "half"
-          VGs, Topos
+          VGs, Topos,
+          Cpls,          \* busbar-section arrangements (labels, CplOf): "c<h>" closed / "o<h>" open switch to host bus h
+          EgSets         \* ext_grid tables beyond the single one on bus 1 (labels, EgsOf): "g31" = rows on bus 3, bus 1;
+                         \* an "x" after a bus = that row is out of service
 VARIABLES cfg, plant, rows, stage, sup, smap, req
 vars == <<cfg, plant, rows, stage, sup, smap, req>>
 
-ElemOpts == {NoElem}
-            \cup [kind : SymKinds, bus : ElemBuses, conn : Conn, pat : {"bal"}, mod : Mods]
-            \cup [kind : AsymKinds, bus : ElemBuses, conn : Conn, pat : Pats, mod : Mods]
+ElemOptsOn(B) == {NoElem}
+            \cup [kind : SymKinds, bus : B, conn : Conn, pat : {"bal"}, mod : Mods]
+            \cup [kind : AsymKinds, bus : B, conn : Conn, pat : Pats, mod : Mods]
+CplOf(l) == CASE l = "c4" -> [host |-> 4, state |-> "closed"] [] l = "o4" -> [host |-> 4, state |-> "open"]
+              [] l = "c2" -> [host |-> 2, state |-> "closed"] [] l = "o2" -> [host |-> 2, state |-> "open"]
+              [] l = "c3" -> [host |-> 3, state |-> "closed"] [] l = "c1" -> [host |-> 1, state |-> "closed"]
+Row2(b1, i1, b2, i2) == <<[bus |-> b1, ins |-> i1], [bus |-> b2, ins |-> i2]>>
+EgsOf(l) == CASE l = "g13" -> Row2(1, TRUE, 3, TRUE)  [] l = "g31" -> Row2(3, TRUE, 1, TRUE)
+              [] l = "g12" -> Row2(1, TRUE, 2, TRUE)  [] l = "g21" -> Row2(2, TRUE, 1, TRUE)
+              [] l = "g3x1" -> Row2(3, FALSE, 1, TRUE) [] l = "g31x" -> Row2(3, TRUE, 1, FALSE)
+              [] l = "g13x" -> Row2(1, TRUE, 3, FALSE)
+              [] l = "g321" -> <<[bus |-> 3, ins |-> TRUE], [bus |-> 2, ins |-> TRUE], [bus |-> 1, ins |-> TRUE]>>
 \* slots are interchangeable: keep one representative per multiset of elements (empty slots last)
 KindIx(k) == CASE k = "load" -> 0 [] k = "sgen" -> 1 [] k = "asymmetric_load" -> 2 [] k = "asymmetric_sgen" -> 3 [] OTHER -> 4
 PatIx(p) == CASE p = "bal" -> 0 [] p = "unb" -> 1 [] OTHER -> 2
 ModIx(m) == CASE m = "none" -> 0 [] m = "oos" -> 1 [] OTHER -> 2
-Code(e) == (((KindIx(e.kind) * 5 + e.bus) * 2 + (IF e.conn = "wye" THEN 0 ELSE 1)) * 3 + PatIx(e.pat)) * 3 + ModIx(e.mod)
+Code(e) == (((KindIx(e.kind) * 6 + e.bus) * 2 + (IF e.conn = "wye" THEN 0 ELSE 1)) * 3 + PatIx(e.pat)) * 3 + ModIx(e.mod)
 Canon(c) == \A i \in 1..(NSlots - 1) : Code(c.elems[i]) <= Code(c.elems[i + 1])
 \* modifiers: at most one modified element per configuration, and it is a symmetric element or an "unb" one (an
 \* out-of-service unbalanced element must not unbalance the network; scaling must reach every phase)
@@ -45,15 +59,34 @@ NetOK(c) == /\ (c.topo # "radial" => c.vg = "Dyn")
             /\ (c.vg # "Dyn" \/ c.topo # "radial" => OnLv(c))
             /\ (c.topo \in {"cut", "toff", "notrafo"} => Plain(c))
             /\ (VgClass(c.vg) # "modelled" => \A i \in 2..NSlots : c.elems[i] = NoElem)
-Configs == {c \in [vg : VGs, topo : Topos, elems : [1..NSlots -> ElemOpts]] : NetOK(c) /\ Canon(c) /\ ModOK(c)}
+\* family A: one ext_grid on bus 1, no busbar section
+FamA == {c \in [vg : VGs, topo : Topos, cpl : {NoCpl}, egs : {OneEg}, elems : [1..NSlots -> ElemOptsOn(ElemBuses)]] :
+            NetOK(c) /\ Canon(c) /\ ModOK(c)}
+\* family B: a busbar section on the reference network (Dyn, radial feeder, one ext_grid).  A section matters only through
+\* the elements it carries: the elements sit on the section and on its host bus, at least one of them on the section
+\* (two on the section, one on each fused bus, same or different connection type, ...); unmodified elements.
+OnSec(c) == \E i \in 1..NSlots : c.elems[i].kind # "none" /\ c.elems[i].bus = BusSec
+FamB == UNION {{c \in [vg : {"Dyn"}, topo : {"radial"}, cpl : {CplOf(l)}, egs : {OneEg},
+                       elems : [1..NSlots -> ElemOptsOn({CplOf(l).host, BusSec})]] : OnSec(c) /\ Canon(c) /\ Plain(c)}
+              : l \in Cpls}
+\* family C: several ext_grid rows on the reference network with the feeder or the ring in service.  The ext_grids differ
+\* from the single one only at the slack buses, so the elements sit on the buses of the ext_grid rows and on the LV bus.
+FamC == UNION {{c \in [vg : {"Dyn"}, topo : Topos \cap {"radial", "ring"}, cpl : {NoCpl}, egs : {EgsOf(l)},
+                       elems : [1..NSlots -> ElemOptsOn({EgsOf(l)[k].bus : k \in 1..Len(EgsOf(l))} \cup {TrafoLv})]] :
+                  Canon(c) /\ ModOK(c)}
+              : l \in EgSets}
+Configs == FamA \cup FamB \cup FamC
 
 Row(e) == [pt |-> TabTotal(e, "p"), qt |-> TabTotal(e, "q"), p |-> TabPhase(e, "p"), q |-> TabPhase(e, "q"),
            scaling2 |-> ScNum(e), in_service |-> (e.mod # "oos")]
-NoMap == [b \in Bus |-> [typ \in Conn |-> [pq \in {"p", "q"} |-> [ph \in Ph |-> 0]]]]
-NoReq == [class |-> "none", netbal |-> FALSE, checked |-> FALSE, perphase |-> {}, live |-> {}, slackload |-> FALSE]
+NoMap == <<>>
+NoReq == [class |-> "none", netbal |-> FALSE, checked |-> FALSE, perphase |-> {}, live |-> {}, slackload |-> FALSE,
+          fusedload |-> FALSE]
 
 \* what the harness has to build: wiring and in_service flags of the template for this topology
-Plant(c) == [ends |-> LineEnds, lines |-> TopoLines(c.topo), thv |-> TrafoHv, tlv |-> TrafoLv, trafo |-> TopoTrafo(c.topo)]
+Plant(c) == [ends |-> LineEnds, lines |-> TopoLines(c.topo), thv |-> TrafoHv, tlv |-> TrafoLv, trafo |-> TopoTrafo(c.topo),
+             level |-> [b \in Buses(c) |-> Level(c, b)], sw |-> Switches(c), egs |-> c.egs,
+             node |-> [b \in Buses(c) |-> NodeOf(c, b)]]       \* (node: for the harness' residual statistics only)
 Init == /\ cfg \in Configs
         /\ plant = Plant(cfg)
         /\ rows = [i \in 1..NSlots |-> Row(cfg.elems[i])]
@@ -69,7 +102,11 @@ MapLoads == /\ stage = "converted"
 Require == /\ stage = "mapped"
            /\ req' = [class |-> Class(cfg), netbal |-> BalancedMap(smap, sup), checked |-> Checked(cfg),
                       perphase |-> {b \in Bus : PerPhase(cfg, b)}, live |-> {i \in 1..NSlots : Live(cfg, i)},
-                      slackload |-> (\E i \in 1..NSlots : Live(cfg, i) /\ cfg.elems[i].bus = SlackBus)]
+                      slackload |-> (\E i \in 1..NSlots : Live(cfg, i) /\ cfg.elems[i].bus \in SlackBuses(cfg)),
+                      \* live elements on two different buses of one node
+                      fusedload |-> (\E i, j \in 1..NSlots : /\ Live(cfg, i) /\ Live(cfg, j)
+                                                               /\ cfg.elems[i].bus # cfg.elems[j].bus
+                                                               /\ SameNode(cfg, cfg.elems[i].bus, cfg.elems[j].bus))]
            /\ stage' = "done"
            /\ UNCHANGED <<cfg, plant, rows, sup, smap>>
 Next == Convert \/ MapLoads \/ Require
@@ -77,19 +114,26 @@ Next == Convert \/ MapLoads \/ Require
 \* ---- model-level requirements, checked by TLC on every configuration -------------------------------------------------
 SumTyp(b, pq, ph) == smap[b]["wye"][pq][ph] + smap[b]["delta"][pq][ph]
 \* the three-phase route and the symmetric route are given the same total power at every bus (any configuration)
-M_TotalsAgree == stage = "mapped" => \A b \in Bus : \A pq \in {"p", "q"} :
+M_TotalsAgree == stage = "mapped" => \A b \in Buses(cfg) : \A pq \in {"p", "q"} :
                     SumTyp(b, pq, 1) + SumTyp(b, pq, 2) + SumTyp(b, pq, 3) = SymBus(cfg, b, pq)
 \* all elements symmetric => every bus is given the same power in the three phases, one third of the symmetric total
 M_SymmetricImpliesBalanced == stage = "done" => (req.class = "balanced" => req.netbal)
 M_BalancedThird == stage = "done" /\ req.class = "balanced" =>
-                      \A b \in Bus : \A pq \in {"p", "q"} : \A ph \in Ph : 3 * SumTyp(b, pq, ph) = SymBus(cfg, b, pq)
+                      \A b \in Buses(cfg) : \A pq \in {"p", "q"} : \A ph \in Ph : 3 * SumTyp(b, pq, ph) = SymBus(cfg, b, pq)
 \* out-of-service elements and elements on unsupplied buses are inert: the mapping is that of the configuration
 \* without them
 Strip(c) == [c EXCEPT !.elems = [i \in 1..NSlots |-> IF Live(c, i) THEN c.elems[i] ELSE NoElem]]
 M_DeadElementsInert == stage = "mapped" => smap = Mapping(Strip(cfg)) /\ Class(Strip(cfg)) = Class(cfg)
 M_PerPhaseScope == stage = "done" => /\ req.perphase \subseteq sup
                                      /\ (req.class = "balanced" => req.perphase = sup)
-                                     /\ SlackBus \in sup
+                                     /\ SlackBuses(cfg) \subseteq sup /\ sup \subseteq Buses(cfg)
+\* fused buses: what the solver is given at a node is the sum of what each of its buses carries (nothing is dropped,
+\* nothing is counted twice), it is kept under the node's name only, and an OPEN switch fuses nothing
+M_FusedSum == stage = "mapped" /\ HasSec(cfg) => \A n \in Buses(cfg) : \A typ \in Conn : \A pq \in {"p", "q"} : \A ph \in Ph :
+                 smap[n][typ][pq][ph] = IF NodeOf(cfg, n) # n THEN 0
+                                        ELSE SumBuses(cfg, {b \in Buses(cfg) : SameNode(cfg, b, n)}, ph, typ, pq, NBus(cfg))
+M_OpenSwitchFusesNothing == stage = "input" /\ cfg.cpl.state # "closed" => \A b \in Bus : NodeOf(cfg, b) = b
+M_FusedSameSupply == stage = "input" => \A a, b \in Buses(cfg) : SameNode(cfg, a, b) => (a \in Supplied(cfg) <=> b \in Supplied(cfg))
 M_RejectedUnchecked == stage = "rejected" => ~Checked(cfg)
 M_RowsConsistent == \A i \in 1..NSlots : rows[i].pt = Sum3(rows[i].p) /\ rows[i].qt = Sum3(rows[i].q)
 =============================================================================
